@@ -147,19 +147,19 @@ func main() {
 	scratch := c.Scratch()
 	var jobs []job
 	for _, z := range zones {
-		nCalc := c.Pick(4, 12)
+		nCalc := c.Pick(4, 32)
 		if !z.decides {
 			nCalc = c.Pick(1, 4)
 		}
 		for s := 0; s < nCalc; s++ {
 			jobs = append(jobs, job{"calc", z.name, z.decides, s, nCalc})
 		}
-		nPlan := c.Pick(2, 4)
+		nPlan := c.Pick(2, 8)
 		for s := 0; s < nPlan; s++ {
 			jobs = append(jobs, job{"plan", z.name, z.decides, s, nPlan})
 		}
 		jobs = append(jobs, job{"broker", z.name, z.decides, 0, 1})
-		nTsdb := c.Pick(1, 2)
+		nTsdb := c.Pick(1, 3)
 		for s := 0; s < nTsdb; s++ {
 			jobs = append(jobs, job{"tsdb", z.name, z.decides, s, nTsdb})
 		}
@@ -172,7 +172,7 @@ func main() {
 	order := map[string]int{"rollup": 0, "tsdb": 1, "calc": 2, "plan": 3, "broker": 4}
 	sort.SliceStable(jobs, func(i, k int) bool { return order[jobs[i].part] < order[jobs[k].part] })
 
-	watchdog := time.Duration(c.Pick(170, 3000)) * time.Second
+	watchdog := time.Duration(c.Pick(600, 4800)) * time.Second
 	results := make([]*rec, len(jobs))
 	fails := make([]string, len(jobs))
 	walls := make([]float64, len(jobs))
